@@ -29,6 +29,12 @@ fn same_type(t: &Type, want: &FieldType, s: &[u8]) -> bool {
 }
 
 fn field_desc_body<const N: usize>(s: &SymStr<N>) {
+	let want = field_desc_check(s);
+	witness!(matches!(want, Some(FieldType { dims: 0, base: Base::Obj(..) })), "object descriptor");
+	witness!(matches!(want, Some(FieldType { dims: 2, .. })), "two-dimensional array");
+	witness!(want.is_none() && s.len >= 2 && s.bytes[0] == b'L' && s.bytes[s.len - 1] == b';', "L...; with an illegal class name");
+}
+fn field_desc_check<const N: usize>(s: &SymStr<N>) -> Option<FieldType> {
 	// SAFETY: descriptor slices accept any content (check_valid is a TODO in the code under test).
 	let desc = unsafe { FieldDescriptorSlice::from_inner_unchecked(s.java()) };
 	let want = grammar::field_descriptor(s.slice());
@@ -38,9 +44,7 @@ fn field_desc_body<const N: usize>(s: &SymStr<N>) {
 		(Ok(p), None) => { core::mem::forget(p); panic!("field descriptor outside the JVMS grammar was accepted"); },
 		(Err(_), Some(_)) => panic!("field descriptor inside the JVMS grammar was rejected"),
 	}
-	witness!(matches!(want, Some(FieldType { dims: 0, base: Base::Obj(..) })), "object descriptor");
-	witness!(matches!(want, Some(FieldType { dims: 2, .. })), "two-dimensional array");
-	witness!(want.is_none() && s.len >= 2 && s.bytes[0] == b'L' && s.bytes[s.len - 1] == b';', "L...; with an illegal class name");
+	want
 }
 
 fn return_desc_body<const N: usize>(s: &SymStr<N>) {
@@ -132,6 +136,7 @@ fn method_roundtrip_body<const N: usize>(s: &SymStr<N>) {
 
 const DESC_ALPHABET: &[u8] = b"BIL;[/a()V.";
 
+//# {"id":"c18_field_desc_t_arrobj","props":["C18","C16"],"tier":"quick","cap":1200,"bound":"all strings [L??; (? = any ASCII byte): arrays of objects with a two-byte class name, incl. [L[I; and [L/a; ; unwind 8","fns":["FieldDescriptorSlice::parse","read_field_type"]}
 //# {"id":"c18_field_desc_ascii3","props":["C18","C16"],"tier":"quick","cap":900,"bound":"every ASCII (0x01..0x7F) string of length 0..=3; unwind 6","fns":["duke::tree::field::FieldDescriptorSlice::parse","duke::tree::descriptor::read_field_type"]}
 //# {"id":"c18_return_desc_ascii3","props":["C18","C16"],"tier":"quick","cap":900,"bound":"every ASCII string of length 0..=3; unwind 6","fns":["duke::tree::descriptor::ReturnDescriptorSlice::parse","read_field_type"]}
 //# {"id":"c18_method_desc_len2","props":["C18","C16"],"tier":"thorough","cap":3000,"bound":"every ASCII string of length exactly 2; unwind 4","fns":["duke::tree::method::MethodDescriptorSlice::parse","read_field_type"]}
@@ -145,6 +150,16 @@ proofs! {
 	fn c18_field_roundtrip_ascii3() { let s = SymStr::<3>::any(0, 3); field_roundtrip_body(&s); }
 	#[cfg_attr(kani, kani::unwind(6))]
 	fn c18_method_roundtrip_ascii4() { let s = SymStr::<4>::exact(); method_roundtrip_body(&s); }
+	#[cfg_attr(kani, kani::unwind(8))]
+	fn c18_field_desc_t_arrobj() {
+		let mut s = SymStr::<5> { bytes: *b"[L??;", len: 5 };
+		let (a, b) = (sym::u8(), sym::u8());
+		sym::assume(a >= 1 && a < 0x80 && b >= 1 && b < 0x80);
+		s.bytes[2] = a; s.bytes[3] = b;
+		let want = field_desc_check(&s);
+		witness!(want.is_some(), "an array of objects");
+		witness!(want.is_none() && a == b'[', "an array descriptor where a class name must stand");
+	}
 	#[cfg_attr(kani, kani::unwind(6))]
 	fn c18_field_desc_ascii3() { let s = SymStr::<3>::any(0, 3); field_desc_body(&s); }
 	#[cfg_attr(kani, kani::unwind(6))]
